@@ -457,6 +457,9 @@ func main() {
 	if *mode == "pairs" {
 		pr := rand.New(rand.NewSource(12345))
 		for _, pf := range profiles {
+			if *only != "" && !strings.Contains(","+*only+",", ","+pf.name+",") {
+				continue
+			}
 			seen := map[string]bool{}
 			var pool [][]string
 			for d := 0; d < 600; d++ {
